@@ -34,9 +34,12 @@ for pid in sorted(PROPS):
             "design_ref": P.design_ref,
         },
         "level_note": P.note,
-        "technique": "bounded symbolic execution of the compiled dasp code (Kani 0.68 -> CBMC 6.11, CaDiCaL SAT): "
-                     "kani::any() inputs/states/schedules, assertions against an independent oracle, unwinding "
-                     "assertions on, counterexamples replayed natively",
+        "technique": ("bounded symbolic execution of the compiled dasp code (Kani 0.68 -> CBMC 6.11, CaDiCaL SAT): "
+                      "kani::any() inputs/states/schedules, assertions against an independent oracle, unwinding "
+                      "assertions on, counterexamples replayed natively"
+                      + ("; plus MIR -> SMT-LIB (FloatingPoint) symbolic execution of the phase accumulator decided by "
+                         "cvc5 / z3 (lib/phase_smt.py) for the clause Kani's float `%` model cannot reach"
+                         if "phase_smt" in getattr(P, "extra_engines", []) else "")),
     })
 
 na = [{"property_id": k, "reason": v} for k, v in sorted(NOT_APPLICABLE.items())]
@@ -53,6 +56,13 @@ m = {
         "add_only": True,
     },
     "engines": [{
+        "name": "mir-smt",
+        "path": "/verif/lib/phase_smt.py",
+        "serves_properties": [p for p in sorted(PROPS) if "phase_smt" in getattr(PROPS[p], "extra_engines", [])],
+        "kind_free_text": "symbolic interpreter for loop-free MIR (dumped from /repo with the nightly toolchain on every run) "
+                          "emitting SMT-LIB QF_FP; cvc5 1.0 decides, z3 4.8.12 cross-checks the cheap queries; models are "
+                          "replayed natively through the Phase::verif_from_state hook before a violation is reported",
+    }, {
         "name": "kani-cbmc",
         "path": "/verif/check",
         "serves_properties": sorted(PROPS),
